@@ -210,6 +210,7 @@ class SamplerCore:
             u = u[idx]
             x = x[idx]
             logl = logl[idx]
+            logw = logw[idx]
             if blobs is not None:
                 blobs = blobs[idx]
 
@@ -220,6 +221,7 @@ class SamplerCore:
             u = u[idx]
             x = x[idx]
             logl = logl[idx]
+            logw = logw[idx]
             if blobs is not None:
                 blobs = blobs[idx]
             weights = np.ones(len(idx)) / len(idx)
